@@ -1,13 +1,24 @@
 /-
-C16 helper (tie T), part 1: the primitives and helper methods of `Gen/Smear.lean` — regenerated on every run from the
-CURRENT text of `src/sparkx/Lattice3D.py` by `harness/translate/smear.py` — on the arguments `add_particle_data`
-gives them, the loops over `np.ndindex` as folds over the flat node index, `reset`, and the constructor
-(`init` = the record of the model lattice, `initAttrs` = the model's cell volume / spacings / n_sigma).
+C16 helper (tie T): every definition of `Gen/Smear.lean` — regenerated on every run from the CURRENT text of
+`src/sparkx/Lattice3D.py` by `harness/translate/smear.py` — is tied to the hand model `Core/Smear.lean`, about which
+the property theorems of `Props/C16.lean` are proved.
 
-The proofs do not compare syntax: they unfold the generated definition, rewrite the calls it makes with the lemmas
-about the callees and close what is left by `simp` / `omega` / `ring1`; a renamed local, a hoisted or inlined
-subexpression (the translator keeps pure locals symbolic, so these do not even change the text), a re-ordered
-product re-prove, a changed sign / bound / comparison does not.
+* primitives (the generated text is written over `Core/Lattice.lean`'s `argminFirst` / `absG`, the model over its own):
+  `nearest_gen`, `closest_gen`;
+* helper methods on the arguments `add_particle_data` gives them: `getCoordinates_nat`, `setValueByIndex_nat`,
+  `getValueByIndex_nat`, `findClosestIndices_gen`, `getIndexNN_inR`, `getValueNN_inR`, `setValueNN_inR`;
+* loops: `ndindex_eq` (a loop over `np.ndindex` = a loop over the flat C-order positions), `foldlM_range_eq` (a loop whose
+  state after `q` passes is known in closed form), `reset_gen`;
+* constructor: `init_gen` (the record of the model lattice), `initAttrs_gen` (cell volume, spacings, n_sigma);
+* `addSameSpacedGrid_gen`: the deposit of the temporary lattice = the model's `targets` / `addAt`;
+* `addParticleData_gen`, `gen_eq_model`: the whole call = the model's `addParticleData` on the selected quantity values.
+
+The proofs do not compare syntax: they unfold the generated definition, rewrite the calls it makes with the lemmas about
+the callees, decide Boolean guards from the truth values of their comparisons (`linarith`, whatever order and form the
+comparisons have) and close arithmetic leaves by `ring1` (`leaf_eq`).  The translator keeps pure locals symbolic and
+writes commutative operands in one canonical order, so renaming, hoisting, inlining and commuting do not even change the
+generated text; re-associated arithmetic (`a / b * c`), re-ordered disjuncts, `1 + 2 * n` for `2 * n + 1` re-prove; a
+changed sign / coefficient / bound / comparison does not.
 -/
 import SparkxVerif.Gen.Smear
 import SparkxVerif.Lemmas.Smear
